@@ -19,14 +19,18 @@ import (
 	"strconv"
 	"strings"
 	"sync"
+	"syscall"
 	"time"
 
 	"verif/harness/vh"
 )
 
-// Bound is the per-input time bound. Inputs take micro- to milliseconds; anything still running
-// after Bound is reported as a hang. It stays below the 10 s after which a `go test -fuzz` worker
-// kills itself.
+// Bound is the per-input bound, measured in CPU time of the process: an input that is still running
+// after the process burned Bound of CPU since the call started (and at least as much wall time has
+// passed) is a hang. Inputs take micro- to milliseconds. CPU time rather than wall time because a
+// starved or throttled machine can suspend a whole process for seconds (observed: a 2 s wall bound
+// fired on a benign 4 KiB datagram with 16 fuzz workers on a box at load 100) and timing must never
+// decide a verdict; a stall accrues no CPU time, a runaway loop accrues it at one second per second.
 const Bound = 6 * time.Second
 
 // BoundCPU is the bound for entry points that only compute on a small input (parsers): still three
@@ -36,18 +40,65 @@ const BoundCPU = 2 * time.Second
 
 // Outcome is what a guarded call did.
 type Outcome struct {
-	Panic any           // recovered value, nil if none
-	Stack string        // stack of the panicking goroutine
-	Hung  bool          // did not return within the bound (its goroutine is abandoned)
-	Dur   time.Duration // how long the call took
+	Panic        any           // recovered value, nil if none
+	Stack        string        // stack of the panicking goroutine
+	Hung         bool          // did not return within the bound (its goroutine is abandoned)
+	Inconclusive bool          // gave up waiting without evidence of a hang (the process was starved); never a verdict
+	Dur          time.Duration // how long the call took
 }
 
-// Guard runs fn in its own goroutine, recovers a panic and waits at most bound for it to return.
-// fn must only run code under test and store results in variables of the caller; it must not call
-// t.Fatalf.
+func cpuTime() time.Duration {
+	var ru syscall.Rusage
+	if err := syscall.Getrusage(syscall.RUSAGE_SELF, &ru); err != nil {
+		return 0
+	}
+	return time.Duration(ru.Utime.Nano() + ru.Stime.Nano())
+}
+
+// Watch decides when a call that has not returned yet is to be called hung.
+type Watch struct {
+	start time.Time
+	cpu0  time.Duration
+	bound time.Duration
+}
+
+// NewWatch starts watching a call with CPU budget bound.
+func NewWatch(bound time.Duration) *Watch {
+	return &Watch{start: time.Now(), cpu0: cpuTime(), bound: bound}
+}
+
+// Elapsed returns the wall time since the watch started.
+func (w *Watch) Elapsed() time.Duration { return time.Since(w.start) }
+
+// Verdict reports whether the watched call, still running, is hung (CPU budget used up, or — a call
+// that blocks without computing — ten times the budget of wall time, at least 30 s, gone by) or
+// whether waiting has to end without a verdict (inside a `go test -fuzz` worker, which kills itself
+// after 10 s per input: after 8 s of wall time without the CPU budget being used).
+func (w *Watch) Verdict() (hung, inconclusive bool) {
+	wall := time.Since(w.start)
+	if wall < w.bound {
+		return false, false
+	}
+	if cpuTime()-w.cpu0 >= w.bound {
+		return true, false
+	}
+	if FuzzWorker() {
+		return false, wall >= 8*time.Second
+	}
+	max := 10 * w.bound
+	if max < 30*time.Second {
+		max = 30 * time.Second
+	}
+	return wall >= max, false
+}
+
+// Guard runs fn in its own goroutine, recovers a panic and waits for it to return until the Watch
+// for bound gives up. fn must only run code under test and store results in variables of the
+// caller; it must not call t.Fatalf.
 func Guard(bound time.Duration, fn func()) Outcome {
 	ch := make(chan Outcome, 1)
-	start := time.Now()
+	w := NewWatch(bound)
+	start := w.start
 	go func() {
 		defer func() {
 			if p := recover(); p != nil {
@@ -58,13 +109,25 @@ func Guard(bound time.Duration, fn func()) Outcome {
 		}()
 		fn()
 	}()
-	timer := time.NewTimer(bound)
-	defer timer.Stop()
+	// fast path: practically every call is done within a scheduler tick
+	first := time.NewTimer(bound)
 	select {
 	case o := <-ch:
+		first.Stop()
 		return o
-	case <-timer.C:
-		return Outcome{Hung: true, Dur: time.Since(start)}
+	case <-first.C:
+	}
+	tick := time.NewTicker(100 * time.Millisecond)
+	defer tick.Stop()
+	for {
+		select {
+		case o := <-ch:
+			return o
+		case <-tick.C:
+			if hung, inc := w.Verdict(); hung || inc {
+				return Outcome{Hung: hung, Inconclusive: inc, Dur: time.Since(start)}
+			}
+		}
 	}
 }
 
@@ -218,6 +281,13 @@ func Count(rec *vh.Rec, sub string, nontrivial bool, digest [8]byte, sample any,
 // outcome was clean.
 func Report(t vh.Fataler, rec *vh.Rec, sub, entry string, c any, digest [8]byte, o Outcome, nontrivial bool, classes ...string) bool {
 	t.Helper()
+	if o.Inconclusive {
+		// no verdict: the process was starved for seconds while this input ran (see Bound)
+		rec.Case(false, digest, nil, append(classes, "inconclusive:starved")...)
+		rec.Note("input %x ran into the fuzz worker's wall-clock limit without using its CPU budget (starved machine); no verdict", digest)
+		Tick(sub)
+		return true
+	}
 	key := Key(entry, o)
 	if key != "" {
 		classes = append(classes, "outcome:"+strings.SplitN(key, ":", 2)[0])
